@@ -64,15 +64,15 @@ def make_single_body(n, backends, with_constraints):
         for i in range(n):
             how = sx.choose(["template-complete", "tell-complete", "tell-later", "pruned", "fail", "running", "waiting"], f"t{i}.how")
             v = sx.sym_float(f"v{i}", ("finite", "inf", "-inf")) if how in ("template-complete", "tell-complete", "tell-later") else None
-            c = sx.sym_real(f"c{i}") if (cmode == "all" and v is not None) else None
-            sa = {} if c is None else {_CONSTRAINTS_KEY: [c]}
+            c = (sx.sym_real(f"c{i}a"), sx.sym_real(f"c{i}b")) if (cmode == "all" and v is not None) else None
+            sa = {} if c is None else {_CONSTRAINTS_KEY: list(c)}
             if how == "template-complete":
                 study.add_trial(create_trial(value=v, system_attrs=sa))
                 complete.append((len(study.get_trials(deepcopy=False)) - 1, v, c))
             elif how in ("tell-complete", "tell-later"):
                 t = study.ask()
                 if c is not None:
-                    study._storage.set_trial_system_attr(t._trial_id, _CONSTRAINTS_KEY, [c])
+                    study._storage.set_trial_system_attr(t._trial_id, _CONSTRAINTS_KEY, list(c))
                 if how == "tell-complete":
                     study.tell(t, v)
                     complete.append((t.number, v, c))
@@ -110,15 +110,16 @@ def make_single_body(n, backends, with_constraints):
             assert gv, f"best_trial {got} is not a COMPLETE trial"
             sx.reach("optimum-checked")
             return sx.all_of([sx.not_(better(v, gv[0], maximize)) for (i, v, c) in complete])
-        # constraints on every COMPLETE trial: feasible iff c <= 0
-        any_feasible = sx.any_of([c <= 0 for (i, v, c) in complete])
+        # constraints on every COMPLETE trial: feasible iff every constraint value is <= 0
+        feas = lambda c: sx.all_of([c[0] <= 0, c[1] <= 0])      # noqa: E731
+        any_feasible = sx.any_of([feas(c) for (i, v, c) in complete])
         if got is None:
             return sx.not_(any_feasible)
         g = [(v, c) for (i, v, c) in complete if i == got]
         assert g, f"best_trial {got} is not a COMPLETE trial"
         gv, gc = g[0]
         sx.reach("optimum-checked")
-        return sx.all_of([any_feasible, gc <= 0] + [sx.implies(c <= 0, sx.not_(better(v, gv, maximize))) for (i, v, c) in complete])
+        return sx.all_of([any_feasible, feas(gc)] + [sx.implies(feas(c), sx.not_(better(v, gv, maximize))) for (i, v, c) in complete])
     return body
 
 
@@ -134,7 +135,7 @@ def dominated_by_some(i, vals, feas):
     return sx.any_of(conds) if conds else False
 
 
-def make_pareto_body(n, d, backends, with_constraints, mid_reads=False, dmasks=None):
+def make_pareto_body(n, d, backends, with_constraints, mid_reads=False, dmasks=None, inf_last=False):
     def body():
         kind = sx.choose(backends, "backend")
         dmask = sx.choose(list(range(1 << d)) if dmasks is None else list(dmasks), "direction_mask")
@@ -147,7 +148,7 @@ def make_pareto_body(n, d, backends, with_constraints, mid_reads=False, dmasks=N
         def check_front(when):
             front = sorted(t.number for t in study.best_trials)
             vals = [r[1] for r in rows]
-            feas = [r[2] <= 0 for r in rows] if cmode == "all" else None
+            feas = [sx.all_of([r[2][0] <= 0, r[2][1] <= 0]) for r in rows] if cmode == "all" else None
             conds = []
             for k, (num, _, c) in enumerate(rows):
                 nd = sx.not_(dominated_by_some(k, vals, feas))
@@ -161,9 +162,10 @@ def make_pareto_body(n, d, backends, with_constraints, mid_reads=False, dmasks=N
             if st == "fail":
                 study.tell(study.ask(), state=TrialState.FAIL)
                 continue
-            v = [sx.sym_float(f"v{i}_{j}", ("finite", "inf") if (i == 0 and j == 0) else ("finite",)) for j in range(d)]
-            c = sx.sym_real(f"c{i}") if cmode == "all" else None
-            sa = {} if c is None else {_CONSTRAINTS_KEY: [c]}
+            # objective j == d-1 may be +inf for every trial (several front members then share an infinite coordinate)
+            v = [sx.sym_float(f"v{i}_{j}", ("finite", "inf") if ((i == 0 and j == 0) or (inf_last and j == d - 1)) else ("finite",)) for j in range(d)]
+            c = (sx.sym_real(f"c{i}a"), sx.sym_real(f"c{i}b")) if cmode == "all" else None
+            sa = {} if c is None else {_CONSTRAINTS_KEY: list(c)}
             how = sx.choose(["template", "tell", "other-handle"] if mid_reads else ["template", "tell"], f"t{i}.how")
             if how == "template":
                 study.add_trial(create_trial(values=v, system_attrs=sa))
@@ -171,7 +173,7 @@ def make_pareto_body(n, d, backends, with_constraints, mid_reads=False, dmasks=N
                 h = study if how == "tell" else handle2
                 t = h.ask()
                 if c is not None:
-                    study._storage.set_trial_system_attr(t._trial_id, _CONSTRAINTS_KEY, [c])
+                    study._storage.set_trial_system_attr(t._trial_id, _CONSTRAINTS_KEY, list(c))
                 h.tell(t, v)
             rows.append((len(study.get_trials(deepcopy=False)) - 1, [(-x if dmask >> j & 1 else x) for j, x in enumerate(v)], c))
             if mid_reads and i < n - 1 and sx.choose(2, f"t{i}.read_front"):
@@ -221,6 +223,9 @@ def obligations(tier):
         obs.append(Obligation("pareto-3d", make_pareto_body(3, 3, ["inmemory"], False), setup, CODE,
                               bounds=dict(trials=3, objectives=3, directions="all 8"), shard_depth=5, budget_s=900, classify=classify,
                               require_reach=["front-computed"], describe="3 objectives, n=3"))
+        obs.append(Obligation("pareto-3d-shared-inf", make_pareto_body(3, 3, ["inmemory"], False, dmasks=[0, 4], inf_last=True), setup, CODE,
+                              bounds=dict(trials=3, objectives=3, last_objective="finite or +inf for every trial"), shard_depth=5, budget_s=900, classify=classify,
+                              require_reach=["front-computed"], describe="3 objectives with infinite values shared between front members"))
     else:
         obs.append(Obligation("pareto-3d", make_pareto_body(3, 3, ["inmemory", "journal"], True), setup, CODE,
                               bounds=dict(trials=3, objectives=3, directions="all 8", constraints=["none", "all"]), shard_depth=6, budget_s=2400,
